@@ -30,7 +30,9 @@ def run(tier):
             cs = os.path.join(sc, "fp.%s.cases.ndjson" % cfg)
             with open(fcases) as f, open(cs, "w") as o:
                 for i, line in enumerate(f):
-                    if vlib.pick_hash(i, 2, vlib.seed() + (1 if cfg == "p32" else 0)): o.write(line)
+                    # word-size sensitive byte/bit-level operations always; the arithmetic families by pseudo-random halves
+                    if any(('"op":"%s"' % k) in line for k in ("fp.hashreduce", "fp.readbe", "fp.writebe", "fp.set", "fp.get", "fp.reduce", "fp.is_one", "fp.inv", "fp.inv_m")) \
+                       or vlib.pick_hash(i, 2, vlib.seed() + (1 if cfg == "p32" else 0)): o.write(line)
         run.drive(FIELD, cfg, ["replay", cs, out] + ([backend] if backend else []))
         traces.append(out)
     # (3) I->S: seeded random events
